@@ -20,6 +20,21 @@
        table files went away): [c09_gc_all_traces_strong] holds of EVERY trace;
        [c09_gc_all_traces] is the requested statement (with [1 <= attempts]).
 
+   Hash types.  Both theorems are about handles configured with the hash type
+   of the directory ([native tabs scripts]).  A handle of the other hash type
+   that holds a stack is never refreshed: its reload refuses the tables of the
+   stack and keeps what it had (Proofs/HashCounterexamples.v:
+   [c09_foreign_refuted], on an initially empty directory).  What is needed is
+   less than [native]: [native_if_empty] -- the handles agree on the hash type
+   if the directory is empty at the start ([c09_all_traces_weak],
+   [c09_gc_all_traces_weak]).  A handle of another type cannot open a non-empty
+   directory and tables.list never becomes empty again, so such a handle never
+   holds a stack ([nostq]) and never writes; the handles of the directory's
+   type only write tables of that type ([writes]); so every table file there
+   ever is has the one hash type (section 3b: [NatInv]), the check at the end
+   of a load by a handle that holds a stack never fails, and the symbolic
+   execution of the stale Add goes through as before.
+
    Structure: 1. sequential execution [sexec] of a program against [apply_req];
    an undisturbed call in a trace is such an execution ([alone_run]).
    2. symbolic execution of [add] in the stale case (strictly, and up to the
@@ -57,14 +72,7 @@ Proof.
     exists c, s', rs, fe, E1. auto.
 Qed.
 
-Fixpoint leaves {A} (p : prog A) (P : A -> Prop) : Prop :=
-  match p with Ret a => P a | Op q k => forall rs, leaves (k rs) P end.
-
-Lemma leaves_bind : forall A B (p : prog A) (f : A -> prog B) P,
-  (forall a, leaves (f a) P) -> leaves (pbind p f) P.
-Proof.
-  induction p as [a|q k IH]; intros f P H; cbn [pbind leaves]; [apply H|]. intro rs. apply IH. exact H.
-Qed.
+(* [leaves p P] (every result the program can return satisfies P) is defined in StackInvProofs *)
 
 Lemma leaves_sexec : forall A so h (p : prog A) P s E a s', leaves p P -> sexec so h p s E a s' -> P a.
 Proof.
@@ -104,7 +112,7 @@ Proof.
   destruct (nth_error (w_handles w) h') as [hd|]; [|inversion H; auto].
   destruct (h_pc hd) as [|o p|].
   - destruct (h_script hd) as [|o rest]; [inversion H; auto|].
-    destruct (call_prog att o (h_mem hd)) as [[m r]|q k]; inversion H; subst; right; intros; reflexivity.
+    destruct (call_prog att (h_hash hd) o (h_mem hd)) as [[m r]|q k]; inversion H; subst; right; intros; reflexivity.
   - destruct p as [[m r]|q k].
     + inversion H; subst. right. intros. unfold finish_events. cbn [app alone_until_ret]. rewrite Hn. reflexivity.
     + destruct (apply_req so c h' q (w_fs w)) as [[s' rs] fe].
@@ -138,7 +146,7 @@ Proof.
            cbn [sexec]. exists c, s', rs, fe, []. split; [exact Ea|]. split; [reflexivity|].
            rewrite Ek. cbn [sexec]. auto.
         -- cbn [app] in Hal. rewrite alone_req, Nat.eqb_refl in Hal. cbn [alone_until_ret] in Hal.
-           set (x := {| h_mem := h_mem hd; h_pc := HRun o (Op q' k'); h_script := h_script hd |}) in *.
+           set (x := {| h_mem := h_mem hd; h_pc := HRun o (Op q' k'); h_script := h_script hd; h_hash := h_hash hd |}) in *.
            destruct (IH _ _ _ h x o (Op q' k') _ _ _ _ E2 (nth_set_same _ _ x _ En) eq_refl Hal)
              as (E & m & s'' & rest' & Hs & -> & ->).
            cbn [w_fs] in Hs.
@@ -163,23 +171,31 @@ Qed.
 Lemma exec_open_all : forall so h old names acc s E o s',
   (forall n, In n names -> lookup n (f_tabs s) <> None) ->
   sexec so h (open_all true old names acc) s E o s' ->
-  s' = s /\ exists m, o = Some m /\ mnames m = rev (mnames acc) ++ names.
+  s' = s /\ exists m, o = Some m /\ mnames m = rev (mnames acc) ++ names /\
+    (* every table comes from the old stack or from the directory *)
+    (forall x, In x m -> In x acc \/ In x old \/ lookup (fst x) (f_tabs s) = Some (snd x)).
 Proof.
   intros so h old. induction names as [|n t IH]; intros acc s E o s' Hex H; cbn [open_all] in H.
   - cbn [sexec] in H. destruct H as (_ & -> & ->). split; [reflexivity|].
-    exists (rev acc). split; [reflexivity|]. unfold mnames. rewrite map_rev, app_nil_r. reflexivity.
+    exists (rev acc). split; [reflexivity|]. split; [unfold mnames; rewrite map_rev, app_nil_r; reflexivity|].
+    intros x Hx. left. apply in_rev. exact Hx.
   - assert (Ht : forall x, In x t -> lookup x (f_tabs s) <> None) by (intros x Hx; apply Hex; right; exact Hx).
     assert (Hfin : forall f m, mnames m = rev (mnames ((n, f) :: acc)) ++ t -> mnames m = rev (mnames acc) ++ n :: t).
     { intros f m ->. cbn [mnames map fst rev]. rewrite <- app_assoc. reflexivity. }
-    destruct (lookup n old) as [f|].
-    + destruct (IH _ _ _ _ _ Ht H) as (-> & m & -> & Hm). split; [reflexivity|]. exists m. split; [reflexivity|].
-      eapply Hfin; eauto.
+    destruct (lookup n old) as [f|] eqn:Eo.
+    + destruct (IH _ _ _ _ _ Ht H) as (-> & m & -> & Hm & Hfrom). split; [reflexivity|]. exists m. split; [reflexivity|].
+      split; [eapply Hfin; eauto|].
+      intros x Hx. destruct (Hfrom x Hx) as [[<-|X]|X]; auto. right. left. apply lookup_In. exact Eo.
     + cbn [pbind op sexec] in H. destruct H as (c & s1 & rs & fe & E' & Hap & _ & H).
       cbn [apply_req] in Hap. destruct (lookup n (f_tabs s)) as [f|] eqn:El.
-      * inversion Hap; subst. destruct (IH _ _ _ _ _ Ht H) as (-> & m & -> & Hm). split; [reflexivity|].
-        exists m. split; [reflexivity|]. eapply Hfin; eauto.
+      * inversion Hap; subst. destruct (IH _ _ _ _ _ Ht H) as (-> & m & -> & Hm & Hfrom). split; [reflexivity|].
+        exists m. split; [reflexivity|]. split; [eapply Hfin; eauto|].
+        intros x Hx. destruct (Hfrom x Hx) as [[<-|X]|X]; auto.
       * exfalso. apply (Hex n); [left; reflexivity|exact El].
 Qed.
+
+(* every table file is of hash type [hh] *)
+Definition tabs_hash (hh : bool) (s : fs) : Prop := forall n f, lookup n (f_tabs s) = Some f -> tf_hash f = hh.
 
 Lemma exec_remove_any : forall so h fuel cands s E u s',
   (forall n, In n cands -> lookup n (f_tabs s) = None) ->
@@ -201,17 +217,28 @@ Qed.
 Lemma lnames_list : forall s, match SNames (f_list s) with SNames (Some l) => l | _ => [] end = listed_fs s.
 Proof. intro s. unfold listed_fs. destruct (f_list s); reflexivity. Qed.
 
-Lemma exec_reload : forall so h a old s E m st s',
+Lemma exec_open_all_hash : forall hh (old m : mem) s,
+  mh hh old -> tabs_hash hh s ->
+  (forall x, In x m -> In x (@nil (nat * tfile)) \/ In x old \/ lookup (fst x) (f_tabs s) = Some (snd x)) ->
+  same_hash hh m = true.
+Proof.
+  intros hh old m s Hold Hs Hfrom. apply same_hash_mh. intros x Hx.
+  destruct (Hfrom x Hx) as [[]|[X|X]]; [apply Hold; exact X|apply (Hs _ _ X)].
+Qed.
+
+Lemma exec_reload : forall so h a hh old s E m st s',
   (forall n, In n (listed_fs s) -> lookup n (f_tabs s) <> None) ->
   (forall n, In n (mnames old) -> In n (listed_fs s) \/ lookup n (f_tabs s) = None) ->
-  sexec so h (reload (S a) true old) s E (m, st) s' -> s' = s /\ mnames m = listed_fs s.
+  mh hh old -> tabs_hash hh s ->
+  sexec so h (reload (S a) hh true old) s E (m, st) s' -> s' = s /\ mnames m = listed_fs s.
 Proof.
-  intros so h a old s E m st s' Hex Hold H.
+  intros so h a hh old s E m st s' Hex Hold Hmh Hth H.
   cbn [reload pbind op sexec] in H. destruct H as (c & s1 & rs & fe & E' & Hap & _ & H).
   cbn [apply_req] in Hap. inversion Hap; subst s1 rs fe. clear Hap.
   rewrite lnames_list in H.
   apply sexec_bind in H as (o & s2 & E1 & E2 & H1 & H2 & _).
-  destruct (exec_open_all _ _ _ _ _ _ _ _ _ Hex H1) as (-> & m' & -> & Hm'). cbn [mnames map rev app] in Hm'.
+  destruct (exec_open_all _ _ _ _ _ _ _ _ _ Hex H1) as (-> & m' & -> & Hm' & Hfrom). cbn [mnames map rev app] in Hm'.
+  rewrite (exec_open_all_hash _ _ _ _ Hmh Hth Hfrom) in H2.
   apply sexec_bind in H2 as (u & s3 & E3 & E4 & H3 & H4 & _).
   apply exec_remove_any in H3.
   - subst s3. cbn [sexec] in H4. destruct H4 as (_ & E4' & ->). inversion E4'; subst. auto.
@@ -225,19 +252,20 @@ Lemma fs_unlock_eq : forall s, f_lock s = None ->
 Proof. intros s H. destruct s; cbn in *; subst; reflexivity. Qed.
 
 (* a stale handle: lock failure, the directory is what it was, the handle holds the current list *)
-Lemma exec_add_stale : forall so h a tx auto mm s E m r s',
+Lemma exec_add_stale : forall so h a hh tx auto mm s E m r s',
   (forall n, In n (listed_fs s) -> lookup n (f_tabs s) <> None) ->
   (forall n, In n (mnames mm) -> In n (listed_fs s) \/ lookup n (f_tabs s) = None) ->
+  mh hh mm -> tabs_hash hh s ->
   list_nat_eqb (mnames mm) (listed_fs s) = false ->
-  sexec so h (add (S a) (KAdd tx) auto mm) s E (m, r) s' ->
+  sexec so h (add (S a) hh (KAdd tx) auto mm) s E (m, r) s' ->
   r = RLockFailure /\ s' = s /\ mnames m = listed_fs s.
 Proof.
-  intros so h a tx auto mm s E m r s' Hex Hold Hst H.
+  intros so h a hh tx auto mm s E m r s' Hex Hold Hmh Hth Hst H.
   assert (Hfail : forall E0 s0, s0 = s ->
-            sexec so h (do! rl := reload (S a) true mm in Ret (fst rl, RLockFailure)) s0 E0 (m, r) s' ->
+            sexec so h (do! rl := reload (S a) hh true mm in Ret (fst rl, RLockFailure)) s0 E0 (m, r) s' ->
             r = RLockFailure /\ s' = s /\ mnames m = listed_fs s).
   { intros E0 s0 -> H0. apply sexec_bind in H0 as ([m1 st] & s1 & E1 & E2 & H1 & H2 & _).
-    destruct (exec_reload _ _ _ _ _ _ _ _ _ Hex Hold H1) as [-> Hm].
+    destruct (exec_reload _ _ _ _ _ _ _ _ _ _ Hex Hold Hmh Hth H1) as [-> Hm].
     cbn [sexec fst] in H2. destruct H2 as (_ & E2' & ->). inversion E2'; subst. auto. }
   unfold add in H. cbn [pbind op sexec] in H. destruct H as (c & s1 & rs & fe & E' & Hap & _ & H).
   cbn [apply_req] in Hap. destruct (f_lock s) as [o|] eqn:El; inversion Hap; subst s1 rs fe; clear Hap.
@@ -301,34 +329,37 @@ Proof.
     + eapply IH; [exact Hsub|exact Hgc|exact H].
 Qed.
 
-Lemma exec_reload_gc : forall so h a old s E m st s',
+Lemma exec_reload_gc : forall so h a hh old s E m st s',
   (forall n, In n (listed_fs s) -> lookup n (f_tabs s) <> None) ->
-  sexec so h (reload (S a) true old) s E (m, st) s' -> gc_ok s s' /\ mnames m = listed_fs s.
+  mh hh old -> tabs_hash hh s ->
+  sexec so h (reload (S a) hh true old) s E (m, st) s' -> gc_ok s s' /\ mnames m = listed_fs s.
 Proof.
-  intros so h a old s E m st s' Hex H.
+  intros so h a hh old s E m st s' Hex Hmh Hth H.
   cbn [reload pbind op sexec] in H. destruct H as (c & s1 & rs & fe & E' & Hap & _ & H).
   cbn [apply_req] in Hap. inversion Hap; subst s1 rs fe. clear Hap.
   rewrite lnames_list in H.
   apply sexec_bind in H as (o & s2 & E1 & E2 & H1 & H2 & _).
-  destruct (exec_open_all _ _ _ _ _ _ _ _ _ Hex H1) as (-> & m' & -> & Hm'). cbn [mnames map rev app] in Hm'.
+  destruct (exec_open_all _ _ _ _ _ _ _ _ _ Hex H1) as (-> & m' & -> & Hm' & Hfrom). cbn [mnames map rev app] in Hm'.
+  rewrite (exec_open_all_hash _ _ _ _ Hmh Hth Hfrom) in H2.
   apply sexec_bind in H2 as (u & s3 & E3 & E4 & H3 & H4 & _).
   apply (exec_remove_any_gc so h s) in H3; [|intros n Hn|apply gc_ok_refl].
   - cbn [sexec] in H4. destruct H4 as (_ & E4' & ->). inversion E4'; subst. auto.
   - apply filter_In in Hn as [_ Hn2]. apply negb_true_iff in Hn2. apply mem_nat_false in Hn2. exact Hn2.
 Qed.
 
-Lemma exec_add_stale_gc : forall so h a tx auto mm s E m r s',
+Lemma exec_add_stale_gc : forall so h a hh tx auto mm s E m r s',
   (forall n, In n (listed_fs s) -> lookup n (f_tabs s) <> None) ->
+  mh hh mm -> tabs_hash hh s ->
   list_nat_eqb (mnames mm) (listed_fs s) = false ->
-  sexec so h (add (S a) (KAdd tx) auto mm) s E (m, r) s' ->
+  sexec so h (add (S a) hh (KAdd tx) auto mm) s E (m, r) s' ->
   r = RLockFailure /\ gc_ok s s' /\ mnames m = listed_fs s.
 Proof.
-  intros so h a tx auto mm s E m r s' Hex Hst H.
+  intros so h a hh tx auto mm s E m r s' Hex Hmh Hth Hst H.
   assert (Hfail : forall E0 s0, s0 = s ->
-            sexec so h (do! rl := reload (S a) true mm in Ret (fst rl, RLockFailure)) s0 E0 (m, r) s' ->
+            sexec so h (do! rl := reload (S a) hh true mm in Ret (fst rl, RLockFailure)) s0 E0 (m, r) s' ->
             r = RLockFailure /\ gc_ok s s' /\ mnames m = listed_fs s).
   { intros E0 s0 -> H0. apply sexec_bind in H0 as ([m1 st] & s1 & E1 & E2 & H1 & H2 & _).
-    destruct (exec_reload_gc _ _ _ _ _ _ _ _ _ Hex H1) as [Hgc Hm].
+    destruct (exec_reload_gc _ _ _ _ _ _ _ _ _ _ Hex Hmh Hth H1) as [Hgc Hm].
     cbn [sexec fst] in H2. destruct H2 as (_ & E2' & ->). inversion E2'; subst. auto. }
   unfold add in H. cbn [pbind op sexec] in H. destruct H as (c & s1 & rs & fe & E' & Hap & _ & H).
   cbn [apply_req] in Hap. destruct (f_lock s) as [o|] eqn:El; inversion Hap; subst s1 rs fe; clear Hap.
@@ -351,11 +382,11 @@ Qed.
 Lemma leaves_true : forall A (p : prog A), leaves p (fun _ => True).
 Proof. induction p as [a|q k IH]; cbn [leaves]; auto. Qed.
 
-Lemma exec_add_fresh : forall so h att tx auto mm s E m r s',
+Lemma exec_add_fresh : forall so h att hh tx auto mm s E m r s',
   f_lock s = None -> mnames mm = listed_fs s ->
-  sexec so h (add att (KAdd tx) auto mm) s E (m, r) s' -> r = ROk.
+  sexec so h (add att hh (KAdd tx) auto mm) s E (m, r) s' -> r = ROk.
 Proof.
-  intros so h att tx auto mm s E m r s' El Hup H.
+  intros so h att hh tx auto mm s E m r s' El Hup H.
   unfold add in H. cbn [pbind op sexec] in H. destruct H as (c & s1 & rs & fe & E' & Hap & _ & H).
   cbn [apply_req] in Hap. rewrite El in Hap. inversion Hap; subst s1 rs fe; clear Hap.
   cbn [pbind op sexec] in H. destruct H as (c1 & s2 & rs & fe & E2 & Hap & _ & H).
@@ -537,13 +568,9 @@ Definition Lf (o : apiop) (m0 : option mem) (res : option mem * apires) : Prop :
   | None => o = AClose \/ (o = AOpen /\ snd res = RErr) \/ m0 = None
   end.
 
-Lemma leaves_wrap : forall A (p : prog A) f (Q : option mem * apires -> Prop),
-  (forall a, Q (f a)) -> leaves (wrap p f) Q.
-Proof. intros A p f Q H. unfold wrap. apply leaves_bind. intro a. cbn [leaves]. apply H. Qed.
-
-Lemma leaves_call_prog : forall att o m, leaves (call_prog att o m) (Lf o m).
+Lemma leaves_call_prog : forall att hh o m, leaves (call_prog att hh o m) (Lf o m).
 Proof.
-  intros att o m.
+  intros att hh o m.
   destruct o; destruct m as [mm|]; cbn [call_prog];
     try (cbn [leaves]; unfold Lf; cbn [fst snd]; auto; fail);
     try (apply leaves_wrap; intros a; unfold Lf; cbn [fst snd]; auto; fail).
@@ -575,6 +602,408 @@ Proof.
   - apply heldf_drop_same.
   - apply heldf_drop_same.
   - cbn [onames] in H0. destruct o; try exact H0; [destruct r; try exact H0|]; apply heldf_drop_same.
+Qed.
+
+(* ------------------------------------------------------------------ *)
+(* 3b. when every handle is configured with the directory's hash type, *)
+(*     every table file there ever is has that hash type               *)
+(* ------------------------------------------------------------------ *)
+
+(* every handle is configured with the hash type of the initial tables *)
+Definition native (tabs : list (nat * tfile)) (scripts : list (bool * list apiop)) : Prop :=
+  exists dh, Forall (fun t => tf_hash (snd t) = dh) tabs /\ Forall (fun s => fst s = dh) scripts.
+
+(* what a request may be: a new table is of hash type [dh]; a commit lists at least one table *)
+Definition wreq (dh : bool) (q : req) : Prop :=
+  match q with
+  | QRenameTmp _ _ _ _ hsh => hsh = dh
+  | QCommitList names => names <> []
+  | _ => True
+  end.
+
+(* the program only writes tables of hash type [dh] (and never commits an empty list) *)
+Fixpoint writes {A} (dh : bool) (p : prog A) : Prop :=
+  match p with
+  | Ret _ => True
+  | Op q k => wreq dh q /\ forall rs, writes dh (k rs)
+  end.
+
+Lemma app_cons_ne : forall (a : list nat) x b, a ++ x :: b <> [].
+Proof. intros a x b E. apply app_eq_nil in E as [_ E]. discriminate E. Qed.
+
+Lemma writes_bind : forall A B dh (p : prog A) (f : A -> prog B),
+  writes dh p -> (forall a, writes dh (f a)) -> writes dh (pbind p f).
+Proof.
+  induction p as [a|q k IH]; intros f Hp Hf; cbn [pbind writes] in *; [apply Hf|].
+  destruct Hp as [Hq Hk]. split; [exact Hq|]. intro rs. apply IH; auto.
+Qed.
+
+Lemma writes_calm : forall A dh (p : prog A), calmp p -> writes dh p.
+Proof.
+  induction p as [a|q k IH]; intros H; cbn [writes calmp] in *; [exact I|].
+  destruct H as [Hq Hk]. split; [destruct q; try exact I; discriminate Hq|]. intro rs. apply IH. apply Hk.
+Qed.
+
+Ltac wr_extra := fail.
+Ltac wrgo :=
+  repeat match goal with
+  | |- _ => wr_extra
+  | |- True => exact I
+  | |- ?x = ?x => reflexivity
+  | |- wreq _ _ => cbn [wreq]
+  | |- _ ++ _ <> [] => apply app_cons_ne
+  | |- _ /\ _ => split
+  | |- forall _ : resp, _ => intro
+  | |- writes _ (Ret _) => exact I
+  | |- writes _ (pbind (op _) _) => cbn [pbind op writes]
+  | |- writes _ (Op _ _) => cbn [writes]
+  | |- writes _ (pbind _ _) =>
+      apply writes_bind;
+      [apply writes_calm;
+       first [apply calmp_reload | apply calmp_lock_tabs | apply calmp_remove_tlocks | apply calmp_remove_tabs
+             | apply calmp_clean_loop]
+      |intro]
+  | |- writes _ (let _ := _ in _) => cbv zeta
+  | |- writes _ (match ?x with _ => _ end) => destruct x
+  end.
+
+Lemma writes_compact_range : forall att hh first last expiry m, writes hh (compact_range att hh first last expiry m).
+Proof. intros. unfold compact_range. wrgo. Qed.
+
+Lemma writes_auto_compact : forall att hh m, writes hh (auto_compact att hh m).
+Proof.
+  intros. unfold auto_compact. destruct (suggest _) as [[s e]|]; [|exact I].
+  apply writes_bind; [apply writes_compact_range|]. intro a. exact I.
+Qed.
+
+Ltac wr_extra ::=
+  match goal with
+  | |- writes _ (pbind (auto_compact _ _ _) _) => apply writes_bind; [apply writes_auto_compact|intro]
+  end.
+
+Lemma writes_add : forall att hh kind auto m, writes hh (add att hh kind auto m).
+Proof. intros. unfold add. wrgo. Qed.
+
+Lemma writes_add_multi : forall att hh tx same m, writes hh (add_multi att hh tx same m).
+Proof. intros. unfold add_multi. wrgo. Qed.
+
+Lemma writes_clean : forall att hh m, writes hh (clean att hh m).
+Proof. intros. unfold clean. wrgo. Qed.
+
+Lemma writes_wrap : forall A dh (p : prog A) f, writes dh p -> writes dh (wrap p f).
+Proof. intros A dh p f H. unfold wrap. apply writes_bind; [exact H|]. intro a. exact I. Qed.
+
+Lemma writes_call_prog : forall att hh o m, writes hh (call_prog att hh o m).
+Proof.
+  intros att hh o m.
+  destruct o; destruct m as [mm|]; cbn [call_prog]; try exact I;
+    try (apply writes_wrap;
+         first [apply writes_add | apply writes_add_multi | apply writes_clean
+               | apply writes_calm; first [apply calmp_open_reload | apply calmp_close]]).
+  - destruct mm; [exact I|]. apply writes_wrap. apply writes_compact_range.
+  - destruct (Nat.ltb last (length mm) && Nat.leb first last); [|exact I]. apply writes_wrap. apply writes_compact_range.
+  - destruct mm; [exact I|]. apply writes_wrap. apply writes_compact_range.
+Qed.
+
+Definition th (dh : bool) (tabs : list (nat * tfile)) : Prop := forall n f, lookup n tabs = Some f -> tf_hash f = dh.
+
+Lemma th_del : forall dh x tabs, th dh tabs -> th dh (del x tabs).
+Proof. intros dh x tabs H n f E. rewrite StackInvProofs.lookup_del in E. destruct (Nat.eqb n x); [discriminate|eauto]. Qed.
+
+Lemma th_app : forall dh tabs n f, th dh tabs -> tf_hash f = dh -> th dh (tabs ++ [(n, f)]).
+Proof.
+  intros dh tabs n f H Hf x g E. rewrite lookup_app in E. destruct (lookup x tabs) eqn:E0.
+  - inversion E as [E1]. rewrite <- E1. eauto.
+  - cbn [lookup] in E. destruct (Nat.eqb x n); [|discriminate]. inversion E as [E1]. rewrite <- E1. exact Hf.
+Qed.
+
+Lemma apply_req_tabs_hash : forall so c h q s s' rs fe dh,
+  apply_req so c h q s = (s', rs, fe) -> tabs_hash dh s ->
+  wreq dh q -> tabs_hash dh s'.
+Proof.
+  intros so c h q s s' rs fe dh H Hs Hq. change (th dh (f_tabs s)) in Hs. change (th dh (f_tabs s')).
+  destruct q as [p| |n|t| |t mn mx txs hsh|names|p|cands|cands| ]; cbn [apply_req] in H.
+  - destruct p; try (inversion H; subst; exact Hs).
+    + destruct (f_lock s); inversion H; subst; exact Hs.
+    + destruct (lookup n (f_tlocks s)); inversion H; subst; exact Hs.
+  - inversion H; subst; exact Hs.
+  - destruct (lookup n (f_tabs s)); inversion H; subst; exact Hs.
+  - destruct (lookup t (f_tmps s)); inversion H; subst; exact Hs.
+  - inversion H; subst; exact Hs.
+  - destruct (lookup t (f_tmps s)); inversion H; subst; [|exact Hs].
+    cbn [f_tabs]. apply th_app; [exact Hs|exact Hq].
+  - destruct (f_lock s); inversion H; subst; exact Hs.
+  - destruct p; try (inversion H; subst; exact Hs).
+    + destruct (f_lock s); inversion H; subst; exact Hs.
+    + destruct (lookup n (f_tabs s)); inversion H; subst; [|exact Hs]. cbn [f_tabs]. apply th_del. exact Hs.
+    + destruct (lookup n (f_tlocks s)); inversion H; subst; exact Hs.
+    + destruct (lookup n (f_tmps s)); inversion H; subst; exact Hs.
+  - match type of H with context [lookup ?x (f_tabs s)] => destruct (lookup x (f_tabs s)) end;
+      inversion H; subst; [|exact Hs]. cbn [f_tabs]. apply th_del. exact Hs.
+  - match type of H with context [lookup ?x (f_tabs s)] => destruct (lookup x (f_tabs s)) end;
+      inversion H; subst; exact Hs.
+  - inversion H; subst; exact Hs.
+Qed.
+
+(* ---- a handle of another hash type never gets a stack when tables.list is not empty ---- *)
+
+(* every handle has the hash type of the directory, or (a non-empty directory) some do not *)
+Definition native_if_empty (tabs : list (nat * tfile)) (scripts : list (bool * list apiop)) : Prop :=
+  tabs = [] -> exists dh, Forall (fun s => fst s = dh) scripts.
+
+Lemma native_weaken : forall tabs scripts, native tabs scripts -> native_if_empty tabs scripts.
+Proof. intros tabs scripts (dh & _ & H) _. exists dh. exact H. Qed.
+
+(* the answers a handle gets while the list is not empty and every table is of type [dh] *)
+Definition fresp_ok (dh : bool) (q : req) (rs : resp) : Prop :=
+  match q with
+  | QReadList => lnames rs <> []
+  | QOpenTab _ => match rs with STab f => tf_hash f = dh | _ => True end
+  | _ => True
+  end.
+
+(* the program only reads the list and opens tables, and on such answers ends in [Q] *)
+Fixpoint nostq {A} (dh : bool) (p : prog A) (Q : A -> Prop) : Prop :=
+  match p with
+  | Ret a => Q a
+  | Op q k => match q with QReadList | QOpenTab _ => True | _ => False end /\
+              forall rs, fresp_ok dh q rs -> nostq dh (k rs) Q
+  end.
+
+Lemma nostq_bind : forall A B dh (p : prog A) (f : A -> prog B) (Q : A -> Prop) (Q' : B -> Prop),
+  nostq dh p Q -> (forall a, Q a -> nostq dh (f a) Q') -> nostq dh (pbind p f) Q'.
+Proof.
+  induction p as [a|q k IH]; intros f Q Q' Hp Hf; cbn [pbind nostq] in *; [apply Hf; exact Hp|].
+  destruct Hp as [Hq Hk]. split; [exact Hq|]. intros rs Hrs. eapply IH; eauto.
+Qed.
+
+Lemma nostq_conseq : forall A dh (p : prog A) (Q Q' : A -> Prop),
+  nostq dh p Q -> (forall a, Q a -> Q' a) -> nostq dh p Q'.
+Proof.
+  induction p as [a|q k IH]; intros Q Q' Hp HQ; cbn [nostq] in *; [apply HQ; exact Hp|].
+  destruct Hp as [Hq Hk]. split; [exact Hq|]. intros rs Hrs. eapply IH; eauto.
+Qed.
+
+Lemma nost_open_all : forall dh names acc, mh dh acc ->
+  nostq dh (open_all true [] names acc)
+        (fun o => forall m, o = Some m -> mh dh m /\ length m = length acc + length names).
+Proof.
+  intros dh. induction names as [|n t IH]; intros acc Hacc; cbn [open_all lookup].
+  - cbn [nostq]. intros m E. inversion E; subst m. split.
+    + intros x Hx. apply Hacc. apply in_rev. exact Hx.
+    + rewrite rev_length. cbn [length]. lia.
+  - cbn [pbind op nostq]. split; [exact I|]. intros rs Hrs. cbn [fresp_ok] in Hrs.
+    destruct rs; try (cbn [nostq]; intros m E; discriminate E).
+    eapply nostq_conseq.
+    + apply (IH ((n, f) :: acc)). intros x [<-|Hx]; [exact Hrs|apply Hacc; exact Hx].
+    + cbn beta. intros o Ho m E. destruct (Ho m E) as [A B]. split; [exact A|].
+      rewrite B. cbn [length]. lia.
+Qed.
+
+Lemma same_hash_foreign : forall dh hh (m : mem), hh <> dh -> mh dh m -> m <> [] -> same_hash hh m = false.
+Proof.
+  intros dh hh m Hne Hm Hm0. destruct m as [|x m']; [congruence|].
+  unfold same_hash. cbn [forallb]. rewrite (Hm x (or_introl eq_refl)).
+  destruct dh, hh; try reflexivity; congruence.
+Qed.
+
+Lemma nost_open_reload : forall dh hh a, hh <> dh -> nostq dh (open_reload a hh) (fun res => res = None).
+Proof.
+  intros dh hh a Hne. induction a as [|a IH]; cbn [open_reload]; [reflexivity|].
+  cbn [pbind op nostq]. split; [exact I|]. intros rs Hrs. cbn [fresp_ok] in Hrs.
+  change (match rs with SNames (Some l) => l | _ => [] end) with (lnames rs).
+  eapply nostq_bind; [apply nost_open_all; intros x []|].
+  cbn beta. intros o Ho. destruct o as [m|].
+  - destruct (Ho m eq_refl) as [Hm Hlen]. cbn [length Nat.add] in Hlen.
+    rewrite (same_hash_foreign dh hh m Hne Hm); [reflexivity|].
+    intro E. subst m. cbn [length] in Hlen. destruct (lnames rs); [congruence|discriminate Hlen].
+  - cbn [pbind op nostq]. split; [exact I|]. intros rs2 _.
+    destruct (names_eqb _ _); [reflexivity|exact IH].
+Qed.
+
+Lemma nost_call_prog : forall dh att hh o, hh <> dh ->
+  nostq dh (call_prog att hh o None) (fun res => fst res = None).
+Proof.
+  intros dh att hh o Hne. destruct o; cbn [call_prog]; try reflexivity.
+  unfold wrap. eapply nostq_bind; [apply nost_open_reload; exact Hne|].
+  cbn beta. intros res ->. reflexivity.
+Qed.
+
+Lemma apply_req_foreign : forall so c h q s s' rs fe dh,
+  apply_req so c h q s = (s', rs, fe) ->
+  match q with QReadList | QOpenTab _ => True | _ => False end ->
+  tabs_hash dh s -> listed_fs s <> [] -> s' = s /\ fresp_ok dh q rs.
+Proof.
+  intros so c h q s s' rs fe dh H Hq Hs Hl. destruct q; try contradiction; cbn [apply_req] in H.
+  - inversion H; subst. split; [reflexivity|]. cbn [fresp_ok]. unfold lnames, listed_fs in *. exact Hl.
+  - destruct (lookup n (f_tabs s)) as [f|] eqn:E; inversion H; subst; (split; [reflexivity|]); cbn [fresp_ok]; [|exact I].
+    apply (Hs n f E).
+Qed.
+
+(* tables.list changes only by a commit *)
+Lemma apply_req_list : forall so c h q s s' rs fe,
+  apply_req so c h q s = (s', rs, fe) ->
+  f_list s' = f_list s \/
+  exists names cc, q = QCommitList names /\ f_lock s = Some cc /\ f_list s' = Some (if Nat.eqb cc h then names else []).
+Proof.
+  intros so c h q s s' rs fe H.
+  destruct q as [p| |n|t| |t mn mx txs hsh|names|p|cands|cands| ]; cbn [apply_req] in H.
+  - destruct p; try (inversion H; subst; left; reflexivity).
+    + destruct (f_lock s); inversion H; subst; left; reflexivity.
+    + destruct (lookup n (f_tlocks s)); inversion H; subst; left; reflexivity.
+  - inversion H; subst; left; reflexivity.
+  - destruct (lookup n (f_tabs s)); inversion H; subst; left; reflexivity.
+  - destruct (lookup t (f_tmps s)); inversion H; subst; left; reflexivity.
+  - inversion H; subst; left; reflexivity.
+  - destruct (lookup t (f_tmps s)); inversion H; subst; left; reflexivity.
+  - destruct (f_lock s) as [cc|] eqn:El; inversion H; subst; [|left; reflexivity].
+    right. exists names, cc. auto.
+  - destruct p; try (inversion H; subst; left; reflexivity).
+    + destruct (f_lock s); inversion H; subst; left; reflexivity.
+    + destruct (lookup n (f_tabs s)); inversion H; subst; left; reflexivity.
+    + destruct (lookup n (f_tlocks s)); inversion H; subst; left; reflexivity.
+    + destruct (lookup n (f_tmps s)); inversion H; subst; left; reflexivity.
+  - match type of H with context [lookup ?x (f_tabs s)] => destruct (lookup x (f_tabs s)) end;
+      inversion H; subst; left; reflexivity.
+  - match type of H with context [lookup ?x (f_tabs s)] => destruct (lookup x (f_tabs s)) end;
+      inversion H; subst; left; reflexivity.
+  - inversion H; subst; left; reflexivity.
+Qed.
+
+(* a handle of the directory's hash type writes tables of that type; one of another type has
+   no stack, and what it runs (an Open) ends without one *)
+Definition hN (dh : bool) (hd : handle) : Prop :=
+  (h_hash hd = dh /\ match h_pc hd with HRun _ p => writes dh p | _ => True end) \/
+  (h_hash hd <> dh /\ h_mem hd = None /\
+   match h_pc hd with HRun _ p => nostq dh p (fun res => fst res = None) | _ => True end).
+
+Definition all_dh (dh : bool) (hs : list handle) : Prop := forall i hd, nth_error hs i = Some hd -> h_hash hd = dh.
+
+Definition NatInv (dh : bool) (w : world) : Prop :=
+  tabs_hash dh (w_fs w) /\
+  (listed_fs (w_fs w) <> [] \/ all_dh dh (w_handles w)) /\
+  forall i hd, nth_error (w_handles w) i = Some hd -> hN dh hd.
+
+Lemma NatInv_held : forall dh w h hd mm,
+  NatInv dh w -> nth_error (w_handles w) h = Some hd -> h_mem hd = Some mm -> h_hash hd = dh.
+Proof.
+  intros dh w h hd mm (_ & _ & Hh) En Em. destruct (Hh h hd En) as [[E _]|(_ & E & _)]; [exact E|congruence].
+Qed.
+
+Lemma all_dh_set : forall dh hs h x hd,
+  nth_error hs h = Some hd -> h_hash x = h_hash hd -> all_dh dh hs -> all_dh dh (set_handle h x hs).
+Proof.
+  intros dh hs h x hd En Ex H i hd' E. destruct (Nat.eq_dec i h) as [->|Hne].
+  - apply nth_set_eq in E. subst. rewrite Ex. apply (H h hd En).
+  - rewrite nth_set_neq in E by exact Hne. eapply H; eauto.
+Qed.
+
+Lemma NatInv_set : forall dh s' hs h x hd,
+  nth_error hs h = Some hd -> h_hash x = h_hash hd ->
+  tabs_hash dh s' -> (listed_fs s' <> [] \/ all_dh dh hs) ->
+  (forall i hd, nth_error hs i = Some hd -> hN dh hd) -> hN dh x ->
+  NatInv dh {| w_fs := s'; w_handles := set_handle h x hs |}.
+Proof.
+  intros dh s' hs h x hd En Ex Hs Hl Ho Hx. split; [exact Hs|]. split.
+  - destruct Hl as [Hl|Hl]; [left; exact Hl|right]. cbn [w_handles]. eapply all_dh_set; eauto.
+  - cbn [w_handles]. intros i hd' E.
+    destruct (Nat.eq_dec i h) as [->|Hne].
+    + apply nth_set_eq in E. subst. exact Hx.
+    + rewrite nth_set_neq in E by exact Hne. eapply Ho; eauto.
+Qed.
+
+Lemma step_N : forall so att γ st dh w h c w' e1,
+  WInv γ w st -> NatInv dh w -> step so att w h c = (w', e1) -> NatInv dh w'.
+Proof.
+  intros so att γ st dh w h c w' e1 (HG & _ & Hinv) (Hs & Hl & Hh) H. unfold step in H.
+  assert (Hsame : NatInv dh w) by (split; [exact Hs|split; assumption]).
+  destruct (nth_error (w_handles w) h) as [hd|] eqn:En; [|inversion H; subst w' e1; exact Hsame].
+  destruct (h_pc hd) as [|o p|] eqn:Epc.
+  - (* a call starts *)
+    destruct (h_script hd) as [|o rest]; [inversion H; subst w' e1; exact Hsame|].
+    assert (Hx : forall m r, call_prog att (h_hash hd) o (h_mem hd) = Ret (m, r) -> forall sc,
+              hN dh {| h_mem := m; h_pc := HIdle; h_script := sc; h_hash := h_hash hd |}).
+    { intros m r Ecp sc. destruct (Hh h hd En) as [[Ehh _]|(Ehh & Em & _)].
+      - left. split; [exact Ehh|exact I].
+      - right. split; [exact Ehh|]. split; [|exact I]. cbn [h_mem].
+        pose proof (nost_call_prog dh att (h_hash hd) o Ehh) as Hn. rewrite Em in Ecp. rewrite Ecp in Hn. exact Hn. }
+    assert (Hy : forall q k, call_prog att (h_hash hd) o (h_mem hd) = Op q k -> forall sc,
+              hN dh {| h_mem := h_mem hd; h_pc := HRun o (Op q k); h_script := sc; h_hash := h_hash hd |}).
+    { intros q k Ecp sc. destruct (Hh h hd En) as [[Ehh _]|(Ehh & Em & _)].
+      - left. split; [exact Ehh|]. cbn [h_pc]. rewrite <- Ecp. rewrite <- Ehh at 1. apply writes_call_prog.
+      - right. split; [exact Ehh|]. split; [exact Em|]. cbn [h_pc]. rewrite <- Ecp, Em. apply nost_call_prog. exact Ehh. }
+    destruct (call_prog att (h_hash hd) o (h_mem hd)) as [[m r]|q k] eqn:Ecp; inversion H; subst w' e1; clear H;
+      (eapply NatInv_set; [exact En|reflexivity|exact Hs|exact Hl|exact Hh|]); [eapply Hx|eapply Hy]; reflexivity.
+  - destruct p as [[m r]|q k].
+    + (* the call returns *)
+      inversion H; subst w' e1. eapply NatInv_set; [exact En|reflexivity|exact Hs|exact Hl|exact Hh|].
+      destruct (Hh h hd En) as [[Ehh _]|(Ehh & Em & Hp)].
+      * left. split; [exact Ehh|exact I].
+      * right. split; [exact Ehh|]. split; [|exact I]. rewrite Epc in Hp. exact Hp.
+    + (* one file-system operation *)
+      destruct (apply_req so c h q (w_fs w)) as [[s' rs] fe] eqn:Ea.
+      destruct (Hh h hd En) as [[Ehh Hp]|(Ehh & Em & Hp)]; rewrite Epc in Hp.
+      * (* of a handle of the directory's hash type *)
+        cbn [writes] in Hp. destruct Hp as [Hq Hk].
+        pose proof (apply_req_tabs_hash _ _ _ _ _ _ _ _ _ Ea Hs Hq) as Hs'.
+        assert (Hl' : listed_fs s' <> [] \/ all_dh dh (w_handles w)).
+        { destruct Hl as [Hl|Hl]; [left|right; exact Hl].
+          destruct (apply_req_list _ _ _ _ _ _ _ _ Ea) as [E|(names & cc & -> & Ecc & E)].
+          - unfold listed_fs in *. rewrite E. exact Hl.
+          - (* a commit: the handle holds the list lock *)
+            destruct (Hinv h hd En) as (_ & _ & Hpc). rewrite Epc in Hpc.
+            destruct Hpc as (lg & HI & Hok & _). cbn [ok] in Hok. destruct Hok as [Hal _].
+            destruct (sp_commit_case (names := names) HG HI Hal) as [Hlock _].
+            rewrite Hlock in Ecc. inversion Ecc; subst cc. rewrite Nat.eqb_refl in E.
+            unfold listed_fs. rewrite E. exact Hq. }
+        specialize (Hk rs).
+        destruct (k rs) as [[m r]|q' k']; inversion H; subst w' e1; clear H;
+          (eapply NatInv_set; [exact En|reflexivity|exact Hs'|exact Hl'|exact Hh|]); left; (split; [exact Ehh|]);
+          cbn [h_pc]; [exact I|exact Hk].
+      * (* of a handle of another hash type: it only looks *)
+        cbn [nostq] in Hp. destruct Hp as [Hq Hk].
+        assert (Hne : listed_fs (w_fs w) <> []).
+        { destruct Hl as [Hl|Hl]; [exact Hl|]. exfalso. apply Ehh. apply (Hl h hd En). }
+        destruct (apply_req_foreign _ _ _ _ _ _ _ _ dh Ea Hq Hs Hne) as [-> Hrs].
+        specialize (Hk rs Hrs).
+        destruct (k rs) as [[m r]|q' k']; inversion H; subst w' e1; clear H;
+          (eapply NatInv_set; [exact En|reflexivity|exact Hs|exact Hl|exact Hh|]); right; (split; [exact Ehh|]).
+        -- split; [|exact I]. exact Hk.
+        -- split; [exact Em|]. exact Hk.
+  - inversion H; subst w' e1. exact Hsame.
+Qed.
+
+Lemma crash_N : forall dh w h w' e1, NatInv dh w -> crash w h = (w', e1) -> NatInv dh w'.
+Proof.
+  intros dh w h w' e1 (Hs & Hl & Hh) H. unfold crash in H.
+  destruct (nth_error (w_handles w) h) as [hd|] eqn:En; inversion H; subst w' e1; [|split; [exact Hs|split; assumption]].
+  eapply NatInv_set; [exact En|reflexivity|exact Hs|exact Hl|exact Hh|].
+  destruct (Hh h hd En) as [[Ehh _]|(Ehh & Em & _)]; [left|right]; (split; [exact Ehh|]); [exact I|].
+  split; [exact Em|exact I].
+Qed.
+
+Lemma NatInv_init : forall tabs scripts,
+  init_ok tabs -> native_if_empty tabs scripts -> exists dh, NatInv dh (init_world tabs scripts).
+Proof.
+  intros tabs scripts (_ & _ & hsh & Hh) Hnat.
+  assert (Hidle : forall i hd, nth_error (w_handles (init_world tabs scripts)) i = Some hd ->
+            h_mem hd = None /\ h_pc hd = HIdle).
+  { intros i hd E. cbn [init_world w_handles] in E. apply nth_error_In in E.
+    apply in_map_iff in E as [sc [<- Hin]]. split; reflexivity. }
+  destruct tabs as [|t0 tabs'].
+  - destruct (Hnat eq_refl) as [dh Hsc]. exists dh. split; [intros n f E; discriminate E|]. split.
+    + right. intros i hd E. cbn [init_world w_handles] in E. apply nth_error_In in E.
+      apply in_map_iff in E as [sc [<- Hin]]. rewrite Forall_forall in Hsc. apply (Hsc sc Hin).
+    + intros i hd E. left. split.
+      * cbn [init_world w_handles] in E. apply nth_error_In in E.
+        apply in_map_iff in E as [sc [<- Hin]]. rewrite Forall_forall in Hsc. apply (Hsc sc Hin).
+      * rewrite (proj2 (Hidle i hd E)). exact I.
+  - exists hsh. split; [|split].
+    + cbn [init_world w_fs init_fs]. intros n f E. cbn [f_tabs] in E. apply lookup_In in E. apply (Hh (n, f) E).
+    + left. cbn [init_world w_fs]. rewrite listed_init. discriminate.
+    + intros i hd E. destruct (Hidle i hd E) as [Em Ep].
+      destruct (Bool.bool_dec (h_hash hd) hsh) as [Eh|Eh]; [left|right]; (split; [exact Eh|]); rewrite Ep; [exact I|].
+      split; [exact Em|exact I].
 Qed.
 
 (* ------------------------------------------------------------------ *)
@@ -615,7 +1044,8 @@ Lemma step_J : forall so att w h c w' e1 mems,
       (forall rest, c09_pre P (snapshot_of (w_fs w)) mems (e1 ++ rest) = c09_pre P (snapshot_of (w_fs w')) mems' rest))
      \/ (exists tx auto mm hd', e1 = [ECall h (AAdd tx auto)] /\ mems' = mems /\ w_fs w' = w_fs w /\
            nth_error (w_handles w') h = Some hd' /\
-           h_pc hd' = HRun (AAdd tx auto) (call_prog att (AAdd tx auto) (Some mm)) /\
+           h_pc hd' = HRun (AAdd tx auto) (call_prog att (h_hash hd') (AAdd tx auto) (Some mm)) /\
+           h_mem hd' = Some mm /\
            heldf h mems = Some (mnames mm))).
 Proof.
   intros so att w h c w' e1 mems HJ H. unfold step in H.
@@ -626,13 +1056,13 @@ Proof.
   assert (Hoth : forall o m r i hd0, i <> h -> nth_error (w_handles w) i = Some hd0 -> hJ (mems_fin h o m r mems) i hd0).
   { intros o m r i hd0 Hne E. eapply hJ_other; [apply heldf_fin_other; exact Hne|]. apply HJ. exact E. }
   assert (Hfin : forall o m r script, Lf o (h_mem hd) (m, r) ->
-            hJ (mems_fin h o m r mems) h {| h_mem := m; h_pc := HIdle; h_script := script |}).
+            hJ (mems_fin h o m r mems) h {| h_mem := m; h_pc := HIdle; h_script := script; h_hash := h_hash hd |}).
   { intros o m r script HL. split; [|exact I]. cbn [h_mem]. eapply heldf_fin_same; eauto. }
   destruct (h_pc hd) as [|o p|] eqn:Epc; [| |apply Hnop; congruence].
   - (* a call starts *)
     destruct (h_script hd) as [|o rest] eqn:Es; [apply Hnop; congruence|].
-    pose proof (leaves_call_prog att o (h_mem hd)) as HL.
-    destruct (call_prog att o (h_mem hd)) as [[m r]|q k] eqn:Ecp.
+    pose proof (leaves_call_prog att (h_hash hd) o (h_mem hd)) as HL.
+    destruct (call_prog att (h_hash hd) o (h_mem hd)) as [[m r]|q k] eqn:Ecp.
     + inversion H; subst w' e1. clear H. cbn [leaves] in HL.
       exists (mems_fin h o m r mems). split.
       * apply J_set; [intros; apply Hoth; assumption|]. apply Hfin. exact HL.
@@ -651,10 +1081,10 @@ Proof.
         split; [exact Hheld|]. cbn [h_pc h_mem]. exact HL.
       * destruct o; try (left; split; intro rest0; reflexivity).
         right. destruct (h_mem hd) as [mm|] eqn:Em; [|cbn [call_prog] in Ecp; discriminate Ecp].
-        exists tx, auto, mm, {| h_mem := Some mm; h_pc := HRun (AAdd tx auto) (Op q k); h_script := rest |}.
+        exists tx, auto, mm, {| h_mem := Some mm; h_pc := HRun (AAdd tx auto) (Op q k); h_script := rest; h_hash := h_hash hd |}.
         split; [reflexivity|]. split; [reflexivity|]. split; [reflexivity|].
         split; [cbn [w_handles]; eapply nth_set_same; exact En|].
-        split; [cbn [h_pc]; rewrite Ecp; reflexivity|exact Hheld].
+        split; [cbn [h_pc h_hash]; rewrite Ecp; reflexivity|]. split; [reflexivity|exact Hheld].
   - (* inside a call *)
     destruct p as [[m r]|q k].
     + inversion H; subst w' e1. clear H. cbn [leaves] in Hh.
@@ -678,26 +1108,28 @@ Proof.
 Qed.
 
 (* what section 5 proves of an undisturbed Add that starts when [P] holds *)
-Definition clause_spec : Prop := forall so a sched γ st w w' evs h hd tx auto mm,
-  WInv γ w st -> run so (S a) w sched = (w', evs) ->
+Definition clause_spec : Prop := forall so a sched γ st dh w w' evs h hd tx auto mm,
+  WInv γ w st -> NatInv dh w -> run so (S a) w sched = (w', evs) ->
   nth_error (w_handles w) h = Some hd ->
-  h_pc hd = HRun (AAdd tx auto) (call_prog (S a) (AAdd tx auto) (Some mm)) ->
+  h_pc hd = HRun (AAdd tx auto) (call_prog (S a) (h_hash hd) (AAdd tx auto) (Some mm)) ->
+  h_mem hd = Some mm ->
   P (snapshot_of (w_fs w)) (mnames mm) = true ->
   c09_clause cmp h (snapshot_of (w_fs w)) (Some (mnames mm)) evs = true.
 
-Lemma run_c09 : clause_spec -> forall so a sched γ st w mems w' evs,
-  WInv γ w st -> J w mems -> run so (S a) w sched = (w', evs) ->
+Lemma run_c09 : clause_spec -> forall so a sched γ st dh w mems w' evs,
+  WInv γ w st -> NatInv dh w -> J w mems -> run so (S a) w sched = (w', evs) ->
   c09_pre P (snapshot_of (w_fs w)) mems evs = true ->
   c09g_loop cmp (snapshot_of (w_fs w)) mems evs = true.
 Proof.
-  intros Hclause so a. induction sched as [|[h c|h] sched IH]; intros γ st w mems w' evs HW HJ H Hpre; cbn [run] in H.
+  intros Hclause so a. induction sched as [|[h c|h] sched IH]; intros γ st dh w mems w' evs HW HN HJ H Hpre; cbn [run] in H.
   - inversion H; subst. reflexivity.
   - destruct (step so (S a) w h c) as [w1 e1] eqn:E1.
     destruct (run so (S a) w1 sched) as [w2 e2] eqn:E2. inversion H; subst w' evs. clear H.
     destruct (@step_inv so (S a) γ w st h c w1 e1 HW E1) as (γ' & st' & HW' & _).
+    pose proof (step_N _ _ _ _ _ _ _ _ _ _ HW HN E1) as HN'.
     destruct (step_J _ _ _ _ _ _ _ _ HJ E1) as (mems' & HJ' & [[C1 C2]|X]).
     + rewrite C1. rewrite C2 in Hpre. eapply IH; eauto.
-    + destruct X as (tx & auto & mm & hd' & -> & -> & Efs & En & Epc & Hheld).
+    + destruct X as (tx & auto & mm & hd' & -> & -> & Efs & En & Epc & Emem & Hheld).
       cbn [app] in *. rewrite c09_call. rewrite c09_pre_call in Hpre.
       apply andb_true_iff in Hpre as [Hg Hpre]. rewrite Hheld in *. rewrite <- Efs in *.
       apply andb_true_iff. split.
@@ -706,9 +1138,10 @@ Proof.
   - destruct (crash w h) as [w1 e1] eqn:E1.
     destruct (run so (S a) w1 sched) as [w2 e2] eqn:E2. inversion H; subst w' evs. clear H.
     destruct (@crash_inv γ w st h w1 e1 HW E1) as (HW' & _).
+    pose proof (crash_N _ _ _ _ _ HN E1) as HN'.
     unfold crash in E1. destruct (nth_error (w_handles w) h) as [hd|] eqn:En.
     + inversion E1; subst w1 e1. cbn [app c09g_loop c09_pre w_fs] in *.
-      apply (IH γ st _ mems w2 e2 HW'); [|exact E2|exact Hpre].
+      apply (IH γ st dh _ mems w2 e2 HW' HN'); [|exact E2|exact Hpre].
       apply J_set; [intros i hd0 _ E; apply HJ; exact E|].
       split; [cbn [h_mem]; apply (HJ h hd En)|exact I].
     + inversion E1; subst w1 e1. cbn [app] in *. eapply IH; eauto.
@@ -783,7 +1216,9 @@ Qed.
 (* the strict reading, when the handle's unlisted tables are already unlinked *)
 Lemma clause_holds : clause_spec snap_eqb held_gone.
 Proof.
-  intros so a sched γ st w w' evs h hd tx auto mm (HG & _) Hrun En Epc Hgone.
+  intros so a sched γ st dh w w' evs h hd tx auto mm (HG & _ & Hinv) HN Hrun En Epc Emem Hgone.
+  destruct (Hinv h hd En) as (_ & Hmh & _). rewrite Emem in Hmh. specialize (Hmh mm eq_refl).
+  pose proof (NatInv_held _ _ _ _ _ HN En Emem) as Ehh. destruct HN as [Hth _]. rewrite Ehh in *.
   unfold c09_clause. destruct (alone_until_ret h evs []) as [[[E r] rest]|] eqn:Hal; [|reflexivity].
   destruct (alone_run _ _ _ _ _ _ _ _ _ _ _ _ _ _ Hrun En Epc Hal) as (E0 & m & s' & rest' & Hs & -> & ->).
   cbn [rev app]. pose proof (last_snap_sexec _ _ _ _ _ _ _ _ Hs) as Hlast.
@@ -797,7 +1232,7 @@ Proof.
     assert (El : f_lock s = None).
     { destruct (f_lock s) as [c|] eqn:El; [|reflexivity]. rewrite (pll_in_files s c El) in Ep. discriminate. }
     apply list_nat_eqb_eq in Eq.
-    rewrite (exec_add_fresh _ _ _ _ _ _ _ _ _ _ _ El Eq H1). reflexivity.
+    rewrite (exec_add_fresh _ _ _ _ _ _ _ _ _ _ _ _ El Eq H1). reflexivity.
   - (* stale *)
     assert (Hold : forall n, In n (mnames mm) -> In n (listed_fs s) \/ lookup n (f_tabs s) = None).
     { intros n Hn. unfold held_gone in Hgone. rewrite forallb_forall in Hgone. specialize (Hgone n Hn).
@@ -805,14 +1240,16 @@ Proof.
       apply orb_true_iff in Hgone as [X|X]; [left; apply mem_nat_In; exact X|].
       right. destruct (lookup n (f_tabs s)) as [f|] eqn:El; [|reflexivity].
       rewrite (pt_in_files s n f El) in X. discriminate. }
-    destruct (exec_add_stale _ _ _ _ _ _ _ _ _ _ _ (g_exist HG) Hold Eq H1) as (-> & -> & Hm).
+    destruct (exec_add_stale _ _ _ _ _ _ _ _ _ _ _ _ (g_exist HG) Hold Hmh Hth Eq H1) as (-> & -> & Hm).
     rewrite Hlast, snap_eqb_refl. cbn [andb mem_events app]. rewrite Nat.eqb_refl, Hm. apply list_nat_eqb_refl.
 Qed.
 
 (* the gc-tolerant reading: no precondition *)
 Lemma clause_holds_gc : clause_spec snap_gc (fun _ _ => true).
 Proof.
-  intros so a sched γ st w w' evs h hd tx auto mm (HG & _) Hrun En Epc _.
+  intros so a sched γ st dh w w' evs h hd tx auto mm (HG & _ & Hinv) HN Hrun En Epc Emem _.
+  destruct (Hinv h hd En) as (_ & Hmh & _). rewrite Emem in Hmh. specialize (Hmh mm eq_refl).
+  pose proof (NatInv_held _ _ _ _ _ HN En Emem) as Ehh. destruct HN as [Hth _]. rewrite Ehh in *.
   unfold c09_clause. destruct (alone_until_ret h evs []) as [[[E r] rest]|] eqn:Hal; [|reflexivity].
   destruct (alone_run _ _ _ _ _ _ _ _ _ _ _ _ _ _ Hrun En Epc Hal) as (E0 & m & s' & rest' & Hs & -> & ->).
   cbn [rev app]. pose proof (last_snap_sexec _ _ _ _ _ _ _ _ Hs) as Hlast.
@@ -825,8 +1262,8 @@ Proof.
     assert (El : f_lock s = None).
     { destruct (f_lock s) as [c|] eqn:El; [|reflexivity]. rewrite (pll_in_files s c El) in Ep. discriminate. }
     apply list_nat_eqb_eq in Eq.
-    rewrite (exec_add_fresh _ _ _ _ _ _ _ _ _ _ _ El Eq H1). reflexivity.
-  - destruct (exec_add_stale_gc _ _ _ _ _ _ _ _ _ _ _ (g_exist HG) Eq H1) as (-> & Hgc & Hm).
+    rewrite (exec_add_fresh _ _ _ _ _ _ _ _ _ _ _ _ El Eq H1). reflexivity.
+  - destruct (exec_add_stale_gc _ _ _ _ _ _ _ _ _ _ _ _ (g_exist HG) Hmh Hth Eq H1) as (-> & Hgc & Hm).
     rewrite Hlast, (snap_gc_of _ _ Hgc). cbn [andb mem_events app]. rewrite Nat.eqb_refl, Hm. apply list_nat_eqb_refl.
 Qed.
 
@@ -834,7 +1271,7 @@ Qed.
 Definition no_stack (w : world) : Prop :=
   forall i hd, nth_error (w_handles w) i = Some hd -> h_mem hd = None /\ (h_pc hd = HIdle \/ h_pc hd = HDead).
 
-Lemma call_prog_0_none : forall o, exists r, call_prog 0 o None = Ret (None, r).
+Lemma call_prog_0_none : forall hh o, exists r, call_prog 0 hh o None = Ret (None, r).
 Proof. destruct o; eexists; reflexivity. Qed.
 
 Lemma run_att0 : forall cmp so sched w w' evs cur,
@@ -848,7 +1285,7 @@ Proof.
     destruct (nth_error (w_handles w) h) as [hd|] eqn:En; [|inversion E1; subst; eapply IH; eauto].
     destruct (HN h hd En) as [Hm [Hpc|Hpc]]; rewrite Hpc in E1; [|inversion E1; subst; eapply IH; eauto].
     destruct (h_script hd) as [|o rest]; [inversion E1; subst; eapply IH; eauto|].
-    rewrite Hm in E1. destruct (call_prog_0_none o) as [r Er]. rewrite Er in E1.
+    rewrite Hm in E1. destruct (call_prog_0_none (h_hash hd) o) as [r Er]. rewrite Er in E1.
     inversion E1; subst w1 e1. clear E1. cbn [finish_events app].
     assert (El : c09g_loop cmp cur [] (ECall h o :: ERet h o r :: e2) = c09g_loop cmp cur [] e2).
     { destruct o, r; reflexivity. }
@@ -875,51 +1312,75 @@ Qed.
 (* property C09, strict reading: for traces in which no Add starts while a table the handle
    holds is unlisted but still on disk (any attempt bound) *)
 Theorem c09_all_traces_strong : forall size_oracle attempts tabs scripts sched,
-  init_ok tabs ->
+  init_ok tabs -> native_if_empty tabs scripts ->
   c09_precond (trace_of size_oracle attempts tabs scripts sched) = true ->
   c09_ok (trace_of size_oracle attempts tabs scripts sched) = true.
 Proof.
-  intros so att tabs scripts sched Hi Hpre.
+  intros so att tabs scripts sched Hi Hnat Hpre. destruct (NatInv_init tabs scripts Hi Hnat) as [dh HN].
   unfold c09_ok, c09_precond, trace_of in *. rewrite <- c09g_strict.
   destruct (run so att (init_world tabs scripts) sched) as [w' evs] eqn:E. cbn [snd] in *.
   cbn [c09g_loop]. cbn [c09_pre] in Hpre.
   destruct att as [|a]; [exact (run_att0 snap_eqb so sched _ _ _ _ (no_stack_init tabs scripts) E)|].
-  exact (run_c09 snap_eqb held_gone clause_holds so a sched _ _ (init_world tabs scripts) [] w' evs
-           (@WInv_init tabs scripts Hi) (J_init tabs scripts) E Hpre).
+  exact (run_c09 snap_eqb held_gone clause_holds so a sched _ _ dh (init_world tabs scripts) [] w' evs
+           (@WInv_init tabs scripts Hi) HN (J_init tabs scripts) E Hpre).
 Qed.
 
 (* property C09, gc-tolerant reading: every trace *)
 Theorem c09_gc_all_traces_strong : forall size_oracle attempts tabs scripts sched,
-  init_ok tabs ->
+  init_ok tabs -> native_if_empty tabs scripts ->
   c09_ok_gc (trace_of size_oracle attempts tabs scripts sched) = true.
 Proof.
-  intros so att tabs scripts sched Hi.
+  intros so att tabs scripts sched Hi Hnat. destruct (NatInv_init tabs scripts Hi Hnat) as [dh HN].
   unfold c09_ok_gc, trace_of. rewrite <- c09g_gc.
   destruct (run so att (init_world tabs scripts) sched) as [w' evs] eqn:E. cbn [snd].
   cbn [c09g_loop].
   destruct att as [|a]; [exact (run_att0 snap_gc so sched _ _ _ _ (no_stack_init tabs scripts) E)|].
-  exact (run_c09 snap_gc (fun _ _ => true) clause_holds_gc so a sched _ _ (init_world tabs scripts) [] w' evs
-           (@WInv_init tabs scripts Hi) (J_init tabs scripts) E (c09_pre_true _ _ _)).
+  exact (run_c09 snap_gc (fun _ _ => true) clause_holds_gc so a sched _ _ dh (init_world tabs scripts) [] w' evs
+           (@WInv_init tabs scripts Hi) HN (J_init tabs scripts) E (c09_pre_true _ _ _)).
 Qed.
 
-(* the statements as requested (the hypothesis on the attempts is not needed any more: see above) *)
+(* the statements as requested: every handle is configured with the directory's hash type
+   (the hypothesis on the attempts is not needed any more: see above) *)
 Theorem c09_all_traces : forall size_oracle attempts tabs scripts sched,
-  init_ok tabs ->
+  init_ok tabs -> native tabs scripts ->
   (1 <= attempts)%nat ->
   c09_precond (trace_of size_oracle attempts tabs scripts sched) = true ->
   c09_ok (trace_of size_oracle attempts tabs scripts sched) = true.
-Proof. intros so att tabs scripts sched Hi _ Hpre. apply c09_all_traces_strong; assumption. Qed.
+Proof.
+  intros so att tabs scripts sched Hi Hnat _ Hpre. apply c09_all_traces_strong; [exact Hi|apply native_weaken; exact Hnat|exact Hpre].
+Qed.
 
 Theorem c09_gc_all_traces : forall size_oracle attempts tabs scripts sched,
-  init_ok tabs ->
+  init_ok tabs -> native tabs scripts ->
   (1 <= attempts)%nat ->
   c09_ok_gc (trace_of size_oracle attempts tabs scripts sched) = true.
-Proof. intros so att tabs scripts sched Hi _. apply c09_gc_all_traces_strong; assumption. Qed.
+Proof.
+  intros so att tabs scripts sched Hi Hnat _. apply c09_gc_all_traces_strong; [exact Hi|apply native_weaken; exact Hnat].
+Qed.
+
+(* the same under the weaker hypothesis: the handles need to agree on the hash type only when
+   the directory is empty at the start.  (A handle of another hash type cannot open a non-empty
+   directory, tables.list never becomes empty again, so such a handle never holds a stack and
+   the oracle has nothing to check for it.) *)
+Theorem c09_all_traces_weak : forall size_oracle attempts tabs scripts sched,
+  init_ok tabs -> native_if_empty tabs scripts ->
+  (1 <= attempts)%nat ->
+  c09_precond (trace_of size_oracle attempts tabs scripts sched) = true ->
+  c09_ok (trace_of size_oracle attempts tabs scripts sched) = true.
+Proof. intros so att tabs scripts sched Hi Hnat _ Hpre. apply c09_all_traces_strong; assumption. Qed.
+
+Theorem c09_gc_all_traces_weak : forall size_oracle attempts tabs scripts sched,
+  init_ok tabs -> native_if_empty tabs scripts ->
+  (1 <= attempts)%nat ->
+  c09_ok_gc (trace_of size_oracle attempts tabs scripts sched) = true.
+Proof. intros so att tabs scripts sched Hi Hnat _. apply c09_gc_all_traces_strong; assumption. Qed.
 
 Print Assumptions c09_all_traces.
 Print Assumptions c09_gc_all_traces.
 Print Assumptions c09_all_traces_strong.
 Print Assumptions c09_gc_all_traces_strong.
+Print Assumptions c09_all_traces_weak.
+Print Assumptions c09_gc_all_traces_weak.
 
 (* the precondition holds whenever the directory is clean in the sense of C16
    (so, by c16_all_traces, at every crash-free instant at which no other handle
@@ -938,23 +1399,26 @@ Qed.
 (* ------------------------------------------------------------------ *)
 
 Module Counterexamples.
-  Definition f0 : tfile := {| tf_min := 1; tf_max := 1; tf_txs := [7]; tf_size := 10 |}.
-  Definition f1 : tfile := {| tf_min := 2; tf_max := 2; tf_txs := [8]; tf_size := 10 |}.
+  Definition f0 : tfile := {| tf_min := 1; tf_max := 1; tf_txs := [7]; tf_size := 10; tf_hash := false |}.
+  Definition f1 : tfile := {| tf_min := 2; tf_max := 2; tf_txs := [8]; tf_size := 10; tf_hash := false |}.
   Definition so (_ : nat) : N := 10%N.
   Definition steps (h n : nat) : list sched_item := repeat (Step h None) n.
 
+  Ltac init_ok_tac :=
+    split; [reflexivity|]; split; [reflexivity|]; exists false; intros x Hx; cbn [In] in Hx;
+    repeat (destruct Hx as [<-|Hx]; [reflexivity|]); destruct Hx.
   Lemma init_ok_1 : init_ok [(0, f0)].
-  Proof. split; reflexivity. Qed.
+  Proof. init_ok_tac. Qed.
   Lemma init_ok_2 : init_ok [(0, f0); (1, f1)].
-  Proof. split; reflexivity. Qed.
+  Proof. init_ok_tac. Qed.
   Lemma init_ok_0 : init_ok [].
-  Proof. split; reflexivity. Qed.
+  Proof. init_ok_tac. Qed.
   (* (c) handle 1 compacts tables 0 and 1 and is paused right after its commit,
      before it unlinks them; handle 0 (holding 0 and 1) then runs an Add alone:
      lock failure, but its reload unlinks 0.ref and 1.ref, so the directory at
      the return is not the directory at the call.  Strict reading: violated (and
      the precondition fails); gc-tolerant reading: accepted *)
-  Definition scripts_c := [[AOpen; AAdd 9 false]; [AOpen; ACompactAll]].
+  Definition scripts_c := [(false, [AOpen; AAdd 9 false]); (false, [AOpen; ACompactAll])].
   Definition sched_c := steps 0 4 ++ steps 1 4 ++ steps 1 11 ++ steps 0 9.
   Definition tr_c := trace_of so 2 [(0, f0); (1, f1)] scripts_c sched_c.
   Example ce_paused_compaction :
@@ -968,27 +1432,30 @@ Module Counterexamples.
   Proof. vm_compute. auto. Qed.
 
   (* the unrestricted strict statement is false *)
+  Lemma native_c : native [(0, f0); (1, f1)] scripts_c.
+  Proof. exists false. split; repeat constructor. Qed.
+
   Theorem c09_unrestricted_refuted :
     ~ (forall size_oracle attempts tabs scripts sched,
-         init_ok tabs -> (1 <= attempts)%nat ->
+         init_ok tabs -> native tabs scripts -> (1 <= attempts)%nat ->
          c09_ok (trace_of size_oracle attempts tabs scripts sched) = true).
   Proof.
     intro H. assert (E : c09_ok tr_c = true).
-    { apply H; [apply init_ok_2|repeat constructor]. }
+    { apply H; [apply init_ok_2|apply native_c|repeat constructor]. }
     destruct ce_paused_compaction as [X _]. rewrite X in E. discriminate E.
   Qed.
 
   (* former counterexamples that the repairs have removed: (a) attempts = 0 (an Open now fails,
      no handle ever holds a stack); (b) an Add after a Close (the oracle forgets a closed handle) *)
-  Definition tr_a := trace_of so 0 [(0, f0)] [[AOpen; AAdd 5 false]] (steps 0 6).
+  Definition tr_a := trace_of so 0 [(0, f0)] [(false, [AOpen; AAdd 5 false])] (steps 0 6).
   Example former_attempts_0 : c09_ok tr_a = true /\ c09_ok_gc tr_a = true.
   Proof. vm_compute. auto. Qed.
-  Definition tr_b := trace_of so 2 [] [[AOpen; AClose; AAdd 5 false]] (steps 0 6).
+  Definition tr_b := trace_of so 2 [] [(false, [AOpen; AClose; AAdd 5 false])] (steps 0 6).
   Example former_add_after_close : c09_ok tr_b = true /\ c09_ok_gc tr_b = true /\ c09_precond tr_b = true.
   Proof. vm_compute. auto. Qed.
 
   (* the precondition is satisfiable on a run with a stale Add, a retry and an auto-compaction *)
-  Definition scripts_e := [[AOpen; AAdd 3 true; AAdd 4 true]; [AOpen; AAdd 5 true; AAdd 6 true]].
+  Definition scripts_e := [(false, [AOpen; AAdd 3 true; AAdd 4 true]); (false, [AOpen; AAdd 5 true; AAdd 6 true])].
   Definition sched_e := steps 0 4 ++ steps 1 4 ++ steps 0 40 ++ steps 1 40 ++ steps 0 40 ++ steps 1 40.
   Definition tr_e := trace_of so 2 [(0, f0); (1, f1)] scripts_e sched_e.
   Example sat_example :
